@@ -1,5 +1,180 @@
+import PsiModel.Stages
 import Drivers.Common
-/-! Stub: replaced by the driver of the `Stages` model. -/
+/-!
+Driver of the `Stages` model (C12).  Sample values are symbolic cells:
+`X k` input column k, `F k` k-th output of the whole-stream filter, `B lo hi` block function of
+input columns [lo, hi), `D k` k-th derivative sample, `P k` pointwise function of column k,
+`G m k` comparison of column k with the threshold of the first m columns, `?` anything else.
+
+Lines:
+  `new <stage> <dim> <ann> <s0> <p1> <p2>`   → `ok`
+  `push <len> <gap>`                         → `ok <blocks>` | `err <Err>`   (continuous stages)
+  `ev <start> <stop> <e1,e2,…>`              → `ok <blocks>` | `err <Err>`   (event_rate)
+A block is `s0;fs;ch;md;n;cells`; for non-annotated streams the first four fields are `_`.
+-/
 namespace Psi.Driver.Stages
-def main : IO Unit := pure ()
+open Psi.Driver Psi.Stages
+
+inductive Cell
+  | x (k : Nat) | f (k : Nat) | b (lo hi : Nat) | d (k : Nat) | p (k : Nat) | g (m k : Nat) | ini | bad
+  deriving DecidableEq, Repr
+
+def Cell.show : Cell → String
+  | .x k => s!"X{k}" | .f k => s!"F{k}" | .b lo hi => s!"B{lo}.{hi}" | .d k => s!"D{k}"
+  | .p k => s!"P{k}" | .g m k => s!"G{m}.{k}" | .ini => "I" | .bad => "?"
+
+/-- is `l` = `X lo, X (lo+1), …`; returns the index after the last one -/
+def consecutive : Nat → List Cell → Option Nat
+  | lo, [] => some lo
+  | lo, .x k :: l => if k = lo then consecutive (lo + 1) l else none
+  | _, _ :: _ => none
+
+/-- symbolic `lfilter`: the state says whether the history so far is exactly `X 0 … X (n-1)` -/
+def symFilt : Mealy Cell Cell (Option Nat) where
+  step s c := match s, c with
+    | some n, .x k => if k = n then (.f n, some (n + 1)) else (.bad, none)
+    | _, _ => (.bad, none)
+
+def symInit (c : Cell) : Option Nat := if c = .x 0 then some 0 else none
+
+def symBlock (l : List Cell) : Cell :=
+  match l with
+  | .x lo :: _ => match consecutive lo l with | some hi => .b lo hi | none => .bad
+  | _ => .bad
+
+def symDiff (prev cur : Cell) : Cell :=
+  match prev, cur with
+  | .ini, .x 0 => .d 0
+  | .x j, .x k => if k = j + 1 then .d k else .bad
+  | _, _ => .bad
+
+def symPoint : Cell → Cell
+  | .x k => .p k
+  | _ => .bad
+
+def symThr (l : List Cell) : Option Nat := consecutive 0 l
+
+def symCmp (th : Option Nat) (c : Cell) : Cell :=
+  match th, c with
+  | some m, .x k => .g m k
+  | _, _ => .bad
+
+abbrev Rate := List Nat          -- divisors applied to the input fs
+abbrev P (α : Type) := PD α Rate String String
+
+def divFs (r : Rate) (q : Nat) : Rate := r ++ [q]
+def showRate (r : Rate) : String := "fs" ++ String.join (r.map fun q => s!"/{q}")
+
+inductive StageSt
+  | blocked (b : Nat) (st : BlockedSt Cell Rate String String)
+  | downsample (q : Nat) (st : DownSt Cell Rate String String)
+  | decimate (q : Nat) (st : Option (DecSt Cell Rate String String (Option Nat)))
+  | discard (st : Nat)
+  | rms (n : Nat) (st : RmsSt Cell Rate String String)
+  | iir (st : Option (Option Nat))
+  | derivative (st : Option (P Cell))
+  | pointwise
+  | autoTh (baseline : Nat) (st : AutoSt Cell Rate String String (Option Nat))
+  | eventRate (size step : Nat) (st : Option RateSt)
+  | dead
+
+structure St where
+  stage : StageSt := .dead
+  twoD : Bool := false
+  annotated : Bool := false
+  pos : Nat := 0          -- index of the next input column
+  s0 : Int := 0           -- s0 of the next chunk
+
+def showErr : Err → String
+  | .valueError => "ValueError"
+  | .diverges => "Diverges"
+
+def showCells (l : List Cell) : String :=
+  if l.isEmpty then "-" else ",".intercalate (l.map Cell.show)
+
+/-- `den = 0`: integer s0; otherwise `s0` is the numerator over `den` -/
+def showBlock (annotated : Bool) (den : Nat) (b : P Cell) : String :=
+  let s0 := if den = 0 then s!"{b.s0}" else s!"{b.s0}/{den}"
+  if annotated then
+    s!"{s0};{showRate b.ann.fs};{b.ann.channel};{b.ann.metadata};{b.data.length};{showCells b.data}"
+  else s!"_;_;_;_;{b.data.length};{showCells b.data}"
+
+def showBlocks (annotated : Bool) (den : Nat) (l : List (P Cell)) : String :=
+  if l.isEmpty then "ok -" else "ok " ++ "|".intercalate (l.map (showBlock annotated den))
+
+def finish {σ : Type} (s : St) (den : Nat) (wrap : σ → StageSt) (s' : St)
+    (r : Except Err (List (P Cell) × σ)) : St × String :=
+  match r with
+  | .error e => ({ s with stage := .dead }, s!"err {showErr e}")
+  | .ok (bs, st) => ({ s' with stage := wrap st }, showBlocks s.annotated den bs)
+
+def push (s : St) (len : Nat) (gap : Int) : St × String :=
+  let y : P Cell :=
+    { data := (List.range len).map fun i => Cell.x (s.pos + i)
+      s0 := s.s0 + gap
+      ann := { fs := [], channel := "ch", metadata := "md" } }
+  let s' := { s with pos := s.pos + len, s0 := s.s0 + gap + len }
+  match s.stage with
+  | .blocked b st => finish s 0 (.blocked b) s' (blockedStep b st y)
+  | .downsample q st => finish s 0 (.downsample q) s' (downsampleStep divFs s.twoD q st y)
+  | .decimate q st => finish s 0 (.decimate q) s' (decimateStep symFilt (some 0) divFs q st y)
+  | .discard st => finish s 0 .discard s' (discardStep st y)
+  | .rms n st => finish s n (.rms n) s' (rmsStep symBlock divFs n st y)
+  | .iir st => finish s 0 .iir s' (iirStep symFilt symInit st y)
+  | .derivative st => finish s 0 .derivative s' (derivativeStep Cell.ini symDiff st y)
+  | .pointwise => finish s 0 (fun _ => .pointwise) s' (transformStep (pointwise symPoint) () y)
+  | .autoTh bl st =>
+    finish s 0 (.autoTh bl) s' (autoThStep symThr symCmp (fun _ m => m ++ "+th") bl st y)
+  | .eventRate .. => (s, "bad-op")
+  | .dead => (s, "err Dead")
+
+def showRateBlocks (step : Nat) (l : List (Nat × List Nat)) : String :=
+  if l.isEmpty then "ok -" else
+  "ok " ++ "|".intercalate (l.map fun (s0x2, counts) =>
+    s!"{s0x2}/2;fs/{step};chdef;mdempty;{counts.length};{showList counts}")
+
+def pushEv (s : St) (start stop : Nat) (evs : List Nat) : St × String :=
+  match s.stage with
+  | .eventRate size step st =>
+    match eventRateStep size step st { events := evs, start := start, stop := stop } with
+    | .error e => ({ s with stage := .dead }, s!"err {showErr e}")
+    | .ok (bs, st') => ({ s with stage := .eventRate size step st' }, showRateBlocks step bs)
+  | .dead => (s, "err Dead")
+  | _ => (s, "bad-op")
+
+def mkStage (name : String) (p1 p2 : Nat) : Option StageSt :=
+  match name with
+  | "blocked" => some (.blocked p1 {})
+  | "downsample" => some (.downsample p1 {})
+  | "decimate" => some (.decimate p1 none)
+  | "discard" => some (.discard p1)
+  | "rms" => some (.rms p1 {})
+  | "iirfilter" => some (.iir none)
+  | "derivative" => some (.derivative none)
+  | "transform" => some .pointwise
+  | "mc_reference" => some .pointwise
+  | "auto_th" => some (.autoTh p1 .first)
+  | "event_rate" => some (.eventRate p1 p2 none)
+  | _ => none
+
+def step (s : St) (ws : List String) : St × String :=
+  match ws with
+  | ["new", name, dim, ann, s0, p1, p2] =>
+    match parseNat? dim, parseNat? ann, parseInt? s0, parseNat? p1, parseNat? p2 with
+    | some dim, some ann, some s0, some p1, some p2 =>
+      match mkStage name p1 p2 with
+      | some st => ({ stage := st, twoD := dim == 2, annotated := ann == 1, pos := 0, s0 := s0 }, "ok")
+      | none => (s, "bad-op")
+    | _, _, _, _, _ => (s, "bad-op")
+  | ["push", len, gap] =>
+    match parseNat? len, parseInt? gap with
+    | some len, some gap => push s len gap
+    | _, _ => (s, "bad-op")
+  | ["ev", start, stop, evs] =>
+    match parseNat? start, parseNat? stop, parseNats? evs with
+    | some a, some b, some l => pushEv s a b l
+    | _, _, _ => (s, "bad-op")
+  | _ => (s, "bad-op")
+
+def main : IO Unit := run {} step
 end Psi.Driver.Stages
